@@ -194,10 +194,8 @@ Definition rx_step (m : mode) (w : vwidth) (hv : bool) (cap : Z) (mm : mem) (r :
             (1, GetVolatile, 0, intent_idx cap, 8, 0, 0, it))
   | RCopy len ty =>
       let ro := record_offset x in
-      Some (of_outcome r (add32 m (ro + HL) len)
-              (fun s => if s >? buf_len cap then r_die r RPanicked
-                        else if len <? 0 then r_die r RCrashed
-                        else r_set r (RVal2 ty (get_bytes mm (ro + HL) (Z.to_nat len)))),
+      Some (if (len <? 0) || (ro + HL + len >? buf_len cap) then r_die r RPanicked
+            else r_set r (RVal2 ty (get_bytes mm (ro + HL) (Z.to_nat len))),
             (1, CopyFrom, -1, -1, (if len <? 0 then two64 + len else len), ro + HL, 0, 0))
   | RVal2 ty bytes =>
       let it := get64 mm (intent_idx cap) in
